@@ -879,6 +879,8 @@ def probes(rng, tier):
         if not ok and detail and detail.startswith('f(p) =') and 'IndicatorLpUnitBall' in fcode and ', 1)' in fcode \
                 and key.startswith('opt-'):
             key = 'indicator-l1-ball-rounding-outside'     # recorded: proj_l1 has no safety margin
+        if not ok and kind == 'sumconstr' and detail and 'AttributeError' not in detail and _nonconst_weights(sp):
+            key = 'indicator-sum-constraint-nonuniform-weights'
         out.append(C.Probe(ok, key, what, optimal_replay(fcode, spec, xflat, wz), detail))
         return ok
 
